@@ -608,8 +608,12 @@ def translate_for_all():
     rel = D + 'class_decorators.py'
     src, tree = load(rel)
     fam = find_in(tree, 'for_all_methods', U)
-    if [a.arg for a in fam.args.args] != ['decorator']:
-        raise Untranslatable(U, 'for_all_methods: parameters changed')
+    if [a.arg for a in fam.args.args] == ['decorator']:
+        raise Untranslatable(U, 'for_all_methods has no `skip` parameter: trace_class traces __repr__ / __str__ again (C18-K13a: a traced '
+                                '__repr__ prints its own self, RecursionError on every method call)')
+    if [a.arg for a in fam.args.args] != ['decorator', 'skip'] or fam.args.vararg or fam.args.kwarg or fam.args.kwonlyargs \
+            or len(fam.args.defaults) != 1 or not same(fam.args.defaults[0], '()'):
+        raise Untranslatable(U, 'for_all_methods: parameters are not (decorator, skip=())')
     dec = find_in(fam, 'decorate', U)
     cls = single_param(dec, U, 'for_all_methods.decorate')
     fb = strip_doc(fam.body)
@@ -636,6 +640,10 @@ def translate_for_all():
         raise Untranslatable(U, 'for_all_methods.decorate: loop is not `for attr in cls.__dict__`')
     attr = loop.target.id
     lb = loop.body
+    # the names in `skip` are left alone: first statement of the loop
+    if not (lb and same_stmt(lb[0], f'if {attr} in skip:\n    continue')):
+        raise Untranslatable(U, 'for_all_methods.decorate: the loop does not start with `if attr in skip: continue` (C18-K13a)')
+    lb = lb[1:]
     if len(lb) != 2 or not (isinstance(lb[0], ast.Assign) and len(lb[0].targets) == 1 and is_name(lb[0].targets[0])):
         raise Untranslatable(U, 'for_all_methods.decorate: loop body changed')
     val = lb[0].targets[0].id
@@ -691,16 +699,30 @@ def translate_for_all():
     # shortcuts
     routes = []
     sc = []
+    skips = []
     for short, inner in (('pedantic_class', 'pedantic'), ('pedantic_class_require_docstring', 'pedantic_require_docstring'),
                          ('trace_class', 'trace'), ('timer_class', 'timer')):
         f = find_in(tree, short, U)
         p = single_param(f, U, short)
         b = strip_doc(f.body)
+        names = None
         if len(b) == 1 and same_stmt(b[0], f'return for_all_methods(decorator={inner})({cls}={p})'):
-            routes.append((short, 'RouteVia "for_all_methods"'))
-            sc.append(f'({coq_string(short)}, {coq_string(inner)})')
-        else:
-            raise Untranslatable(U, f'{short} is not `return for_all_methods(decorator={inner})(cls=cls)`')
+            names = []
+        elif len(b) == 1 and isinstance(b[0], ast.Return) and isinstance(b[0].value, ast.Call) \
+                and isinstance(b[0].value.func, ast.Call) and len(b[0].value.func.keywords) == 2 \
+                and b[0].value.func.keywords[1].arg == 'skip' and isinstance(b[0].value.func.keywords[1].value, ast.Tuple) \
+                and all(isinstance(e, ast.Constant) and isinstance(e.value, str) for e in b[0].value.func.keywords[1].value.elts):
+            names = [e.value for e in b[0].value.func.keywords[1].value.elts]
+            if not same_stmt(b[0], f'return for_all_methods(decorator={inner}, skip={tuple(names)!r})({cls}={p})'):
+                names = None
+        if names is None:
+            raise Untranslatable(U, f'{short} is not `return for_all_methods(decorator={inner}[, skip=(<names>)])(cls=cls)`')
+        if short == 'trace_class' and not {'__repr__', '__str__'} <= set(names):
+            raise Untranslatable(U, 'trace_class does not skip __repr__ / __str__: trace prints repr(self), a traced __repr__ recurses '
+                                    '(C18-K13a)')
+        routes.append((short, 'RouteVia "for_all_methods"'))
+        sc.append(f'({coq_string(short)}, {coq_string(inner)})')
+        skips.append(f'({coq_string(short)}, {coq_list([coq_string(n) for n in names])})')
     # the names trace/timer/pedantic used here are the package's decorators
     imports = [dump(s) for s in tree.body if isinstance(s, ast.ImportFrom)]
     for need in ('from pedantic.decorators import timer, trace',
@@ -713,6 +735,7 @@ def translate_for_all():
                                                           ('trace', 'timer', 'pedantic', 'is_enabled', 'pedantic_require_docstring')):
             raise Untranslatable(U, 'class_decorators.py: module-level rebinding')
     out += f'Definition class_shortcuts : list (string * string) := {coq_list(sc)}.\n'
+    out += f'Definition class_skips : list (string * list string) := {coq_list(skips)}.\n'
     routes.append(('for_all_methods', 'RouteGuard SiteForAll' if guard_first else 'RouteNoGuard'))
     return out, routes
 
